@@ -1150,7 +1150,9 @@ class MultiTestResult(TestResult):
         )
 
     def _get_failfast(self):
-        return getattr(self._results[0], "failfast", False)
+        # As in __init__: failfast asked of any wrapped result counts (the
+        # value is written back to every one of them by startTestRun).
+        return any(getattr(result, "failfast", False) for result in self._results)
 
     def _set_failfast(self, value):
         self._dispatch("__setattr__", "failfast", value)
